@@ -50,6 +50,7 @@ func init() {
 		Floors:      map[string]int{"D1": 2, "D2": 10, "D3": 66, "D4": 12, "D5": 4, "D6": 2, "D7": 2, "D8": 2},
 		Borrows: []Borrow{
 			{From: "C04", Rules: []string{"D9"}, Why: "listings follow log order, and are the same on every replica, only if the log order itself is the same on every replica: group stores must be opened with a comparator whose tie-break is total (every device writes under the group's one log identity, so concurrent entries tie on clock time and id and the default orders them by arrival)"},
+			{From: "C14", Rules: []string{"D1"}, Why: "a message listing contains every entry of the range only if each entry can still be opened; an entry whose only message key was consumed when its push payload was opened is skipped silently, and a replica that received the push lists something else than one that did not"},
 		},
 		Run: runC13,
 	})
